@@ -102,4 +102,10 @@ CHECKS = {
           "postconditions (vertices kept in order, max segment length, total length, minimal piece count) on all densifiable types."),
     note="Trusted: TLC. Segment lengths are integers by construction; tolerance 1e-12 x length. Densify outputs are held to the four stated postconditions, not to a particular subdivision.",
     technique="TLA+ exact arc-length parametrisation + walk model checked by TLC; spec->impl replay", design_ref="DESIGN.md 5 C15"),
+ "C19": dict(
+    text=("Gen_Traversal.tla defines traversal, exterior traversal, line pairs, mapping and bounding box by structural recursion over "
+          "geometry trees; TLC checks their mutual laws on every tree and emits expected values; replay through the Geometry enum "
+          "and every concrete type incl. fallible mapping functions failing at every call position, bounding_rect and extremes."),
+    note="Trusted: TLC. Trees of <= 3 members (nesting depth <= 3) over a 20-entry pool; 4 coordinate functions. Exact equality (integer coordinates).",
+    technique="TLA+ structural recursion over geometry trees enumerated by TLC; spec->impl replay", design_ref="DESIGN.md 5 C19"),
 }
